@@ -227,6 +227,22 @@ Proof. exact ExportsProofs.F7_iter_name_indices_orig_refuted. Qed.
 Print Assumptions C08_F7_iter_name_indices_orig_refuted.
 
 (* a table with a symbol, a hole, a forwarder and an unnamed entry; three sorted names *)
+
+(* the field offsets of IMAGE_EXPORT_DIRECTORY that the model reads through (regenerated from src/image.rs on every run)
+   are those of the Export Directory Table in the PE/COFF specification *)
+From PV.gen Require Layout.
+From PV.Proofs Require ConstsExports.
+Theorem C08_layout_matches_format :
+  Layout.IMAGE_EXPORT_DIRECTORY_size = 40 /\ Layout.IMAGE_EXPORT_DIRECTORY_align <= 4 /\
+  Layout.IMAGE_EXPORT_DIRECTORY_Characteristics_off = 0 /\ Layout.IMAGE_EXPORT_DIRECTORY_TimeDateStamp_off = 4 /\
+  Layout.IMAGE_EXPORT_DIRECTORY_Version_off = 8 /\
+  Layout.IMAGE_EXPORT_DIRECTORY_Name_off = 12 /\ Layout.IMAGE_EXPORT_DIRECTORY_Base_off = 16 /\
+  Layout.IMAGE_EXPORT_DIRECTORY_NumberOfFunctions_off = 20 /\ Layout.IMAGE_EXPORT_DIRECTORY_NumberOfNames_off = 24 /\
+  Layout.IMAGE_EXPORT_DIRECTORY_AddressOfFunctions_off = 28 /\ Layout.IMAGE_EXPORT_DIRECTORY_AddressOfNames_off = 32 /\
+  Layout.IMAGE_EXPORT_DIRECTORY_AddressOfNameOrdinals_off = 36.
+Proof. exact ConstsExports.export_layout_matches_format. Qed.
+Print Assumptions C08_layout_matches_format.
+
 Example C08_nonvacuous :
   ordinal ex_cstr ex_tables 5 = Ok (Symbol 4096) /\ ordinal ex_cstr ex_tables 4 = Err EBounds /\
   ordinal ex_cstr ex_tables 6 = Err ENull /\ ordinal ex_cstr ex_tables 7 = Ok (Forward [75; 46; 70]) /\
